@@ -200,8 +200,8 @@ func c17RunDoc(c *Ctx, k c17Case) {
 	var compact bytes.Buffer
 	stdjson.Compact(&compact, doc)
 	var concat []byte
-	t := c17Tokenizer(k.Prior, doc)
 	p := protect(func() {
+		t := c17Tokenizer(k.Prior, doc)
 		for i, cl := range k.Cls {
 			c.Eval(1)
 			if !t.Next() {
